@@ -4,7 +4,7 @@ import math
 import sys
 
 from mcx import sched
-from mcx.common import (OPS, PRESENTATIONS, cell, isna, levenshtein, mkframe, seed, ssj)
+from mcx.common import (OPS, PRESENTATIONS, cell, isna, levenshtein, lib, mkframe, seed, ssj)
 from mcx.engine import Layer, run_check
 from py_stringmatching.tokenizer.qgram_tokenizer import QgramTokenizer
 
@@ -122,11 +122,11 @@ def w_edit(job):
     desc = 'q=%d padding=%s return_set=%s t=%r op=%s n_jobs=%d default_tok=%s gen=%s' % (
         q, padding, rs, t, op, n_jobs, job.get('default_tok', False), g if g['gen'] != 'strs' else 'strs')
     if job.get('default_tok'):
-        out = ssj.edit_distance_join(L, R, 'id', 'id', 's', 's', t, op, am, None, None, 'l_', 'r_',
+        out = lib(ssj.edit_distance_join, L, R, 'id', 'id', 's', 's', t, op, am, None, None, 'l_', 'r_',
                                      True, n_jobs, False)
     else:
         tok = QgramTokenizer(qval=q, padding=padding, return_set=rs)
-        out = ssj.edit_distance_join(L, R, 'id', 'id', 's', 's', t, op, am, None, None, 'l_', 'r_',
+        out = lib(ssj.edit_distance_join, L, R, 'id', 'id', 's', 's', t, op, am, None, None, 'l_', 'r_',
                                      True, n_jobs, False, tok)
     got, cnt, viol, nviol = judge_edit(prop, lv, rv, L, R, out, q, padding, t, op, am, desc)
     # corollary with padding, checked without the tokenizer
@@ -185,7 +185,7 @@ def w_edit_packed(job):
     L = mkframe(lv, pres, prefix='l')
     R = mkframe(rv, pres, prefix='r')
     tok = QgramTokenizer(qval=q, padding=padding, return_set=rs)
-    out = ssj.edit_distance_join(L, R, 'id', 'id', 's', 's', t, op, False, None, None, 'l_', 'r_',
+    out = lib(ssj.edit_distance_join, L, R, 'id', 'id', 's', 's', t, op, False, None, None, 'l_', 'r_',
                                  True, 1, False, tok)
     desc = 'packed tiny string tables %d..%d q=%d padding=%s t=%r op=%s' % (job['lo'], job['hi'], q, padding, t, op)
     got, cnt, viol, nviol = judge_edit('C03', lv, rv, L, R, out, q, padding, t, op, False, desc)
